@@ -239,7 +239,7 @@ func runC04(rep *Report, r *Rng, tier string) {
 }
 
 func runGrpcConc(o *Oracle, rep *Report, r *Rng) {
-	raceBin := "/verif/.build/updog-race"
+	raceBin := updogBin + "-race"
 	if _, err := os.Stat(raceBin); err != nil {
 		rep.Note("no -race build of the server available; concurrent gRPC part skipped")
 		return
